@@ -24,7 +24,7 @@ RULE = ("seeded set-ups: grids [nr 6-9, ntheta 4-9 even and odd, nz 7-8, nv 6-9]
         "(3,1),(1,3),(3,2),(2,3), chi in {0,1}, adiabatic or kinetic electrons, distributions = equilibrium*(1+eps*mode) with "
         "poloidal mode numbers also above ntheta/2 (aliasing bookkeeping) from pygyro's own initialiser, or equilibrium + "
         "random perturbation (relative size 0.2, and 1e-9), or one strong poloidal mode with side bands nine orders of magnitude weaker; stages rho / modes / phi_hat / phi assembled over ranks and compared with the independent "
-        "pipeline; the same solver objects are then used for a second distribution (compared the same way) and for the first one again (bit-identical stages required); FFT round trip on random complex grids; equilibrium (eps=0): rho, phi exactly zero and one full Strang "
+        "pipeline; the same solver objects are then used for a second distribution (compared the same way) and for the first one again (judged against the reference again); FFT round trip on random complex grids; equilibrium (eps=0): rho, phi exactly zero and one full Strang "
         "step is a fixed point.  A class is (ntheta parity, chi/electron model, which of r|z split, data kind, stage).")
 ASSUMPTIONS = ["simulated MPI through all layout changes of the pipeline (self-tested)", "reference per-mode solve = dense Galerkin assembly of C14 with the QN coefficient functions",
                "tolerance 1000*eps*cond(K)*kappa*scale per stage"]
@@ -148,15 +148,16 @@ def _pipeline(case, spl, ps):
         r_ = _compare_stages(Fin, suffix, label, asm, qnref, c, eta, bs, breaks, chi, adiabatic, nth, (nr, nth, nz), base, model, mmode, nprocs, ev, cls, wit)
         if r_ is not None:
             return r_
-    # third computation with the first distribution again: bit-identical to the first
+    # third computation with the first distribution again: judged against the reference like the first one (the property does
+    # not ask for bit-wise reproducibility)
     if all((name + "#3") in w.results[0] for name in ("rho", "phi")):
-        for name in ("rho", "modes", "phi_hat", "phi"):
-            a, b = asm(name, (nr, nth, nz)), asm(name + "#3", (nr, nth, nz))
-            ev["repeat_points"] = ev.get("repeat_points", 0) + a.size
-            cls.add("%s/repeat-bit-identical" % base)
-            if not np.array_equal(a, b):
-                return result(VIOL, cls=sorted(cls), events=ev, key="C15:history/%s-not-reproducible" % name,
-                              what="stage '%s' of the same distribution computed again on the same solver objects (after another distribution) differs (max |difference| %.3g, %d entries not equal)" % (name, float(np.nanmax(np.abs(a - b))), int((a != b).sum())), witness=wit)
+        ev["repeat_points"] = ev.get("repeat_points", 0) + 4 * nr * nth * nz
+        cls.add("%s/repeat-after-other-distribution" % base)
+        r_ = _compare_stages(F0, "#3", "third (the first distribution again, after another one)", asm, qnref, c, eta, bs, breaks, chi, adiabatic, nth, (nr, nth, nz), base, model, mmode, nprocs, ev, cls, wit)
+        if r_ is not None:
+            if r_.get("key"):
+                r_["key"] = "C15:history/" + r_["key"].split(":", 1)[1].replace("/second-use", "")
+            return r_
     G = asm("roundtrip", (nr, nth, nz))
     ev["roundtrip_points"] += G.size
     cls.add("%s/fft-roundtrip" % base)
